@@ -60,7 +60,7 @@ def plan(tier, seed):
             scs += [dict(kind='real', file=fi, rel=['super', d]) for d in ([[2, 1, 1]] if tier == 'quick' else [[2, 1, 1], [1, 1, 2], [1, 2, 1]])]
     return dict(scenarios=scs, exhaustive=True, chunk=4,
                 menus=dict(cells=[c[0] for c in G.CELLS], patterns=G.PATTERN_NAMES, decoys=DECOYS3, real_files=[r[0] for r in REAL[:len(files)]],
-                           relations=['shift-and-wrap', 'atom permutation', 'rigid motion of the pattern', 'hint forms', 'draw answers', 'supercell'],
+                           relations=['shift-and-wrap', 'atom permutation', 'rigid motion of the pattern', 'other numbering of the atom types (pattern / structure)', 'hint forms', 'draw answers', 'supercell'],
                            shifts='(1/2,0,0), generic, a lattice vector, -1e-9, + seed-derived (%d)' % (4 if tier == 'quick' else 10),
                            permutations='reverse, rotate, interleave; all n! for structures of <= 5 atoms', supercells='{(2,1,1),(1,1,2)} quick; {1,2,3}^3 for <= 6 atoms, 4 triples otherwise'),
                 bounds=dict(draw_deviation_bound=draw_bound(tier)),
@@ -177,6 +177,16 @@ def run_gen(sc, ctx, out):
         if err:
             out['violations'].append(viol('no-result', 'exc:' + exc_sig(err), 'moved pattern: find raised %r' % (err[0],), sc, case=case)); continue
         compare(base, res, pp, atol, c0, 'motion %d of the pattern' % mi, sc, out, case=case)
+    # the same pattern / structure with another numbering of the atom types (type id 0 is not the first atom's type)
+    def retyped(el, pos, cell):
+        uniq = list(dict.fromkeys(el))[::-1] + ['Xe']
+        return Atoms(atom_types=[uniq.index(e) for e in el], atom_type_elements=uniq, atom_type_labels=[u + '_t' for u in uniq], atom_type_masses=[MASS.get(u, 1.0) for u in uniq],
+                     positions=np.asarray(pos, float), cell=None if cell is None else np.array(cell, float))
+    for what, s2, p2 in (('retyped pattern', m['s'], retyped(pel, m['p'].positions, None)), ('retyped structure', retyped(spec['el'], spec['pos'], cell), m['p'])):
+        res, err = find(s2, p2, atol, ex); out['evals'] += 1; nrel += 1
+        if err:
+            out['violations'].append(viol('no-result', 'exc:' + exc_sig(err), '%s: find raised %r' % (what, err[0]), sc, case=case)); continue
+        compare(base, res, pp, atol, c0, what, sc, out, case=case)
     # hints
     if 1 < len(pel) <= (4 if q else 5):
         for f in hint_forms(pp):
